@@ -18,6 +18,7 @@ CHECKS = {
     "C05": ("3/C05", "symbolic execution of the sort filter (argsort forks over orders); tie-robust rank-window obligations decided by z3", ""),
     "C13": ("3/C13", "symbolic execution of ConstraintInfo.create/__post_init__/transform_from_optimizer and the feasibility test; linear/bilinear obligations decided by z3", ""),
     "C12": ("3/C12", "symbolic execution of the tracker handler on real result/event objects with symbolic objectives, violations and tolerance; bounded histories plus one step from an arbitrary valid state; LRA obligations decided by z3", ""),
+    "C17": ("3/C17", "symbolic execution of SciPySampler with the SciPy distributions/QMC engines stubbed by fresh symbols (every drawn number is a solver variable); entry-identity obligations decided by z3", ""),
     "C10": ("3/C10", "symbolic execution of fix_perturbations + _perturb_variables/_apply_bounds through EnsembleEvaluator.calculate; linear/bilinear obligations decided by z3", ""),
     "C01": ("3/C01", "symbolic execution of EnsembleEvaluator.calculate on z3-backed arrays; per-path NRA obligations decided by z3 (cvc5 cross-check)", ""),
 }
